@@ -540,6 +540,15 @@ func mSortSlice(stable bool) modelFn {
 			body = body.Origin()
 		}
 		c := x.P.ContractFor(body)
+		if x.c != nil && x.c.Options["frame-only"] == "true" {
+			// frame-only re-run: only the footprint matters - the slice's
+			// backing array gets arbitrary contents
+			name := x.elemsArr(el)
+			rowSort := SArr(x.idxSort(), x.sortOf(el))
+			arr := x.heapGet(st, name, SArr(SInt, rowSort))
+			st.heap[name] = Store(arr, x.slBase(sv.T), x.d.Fresh("sortedrow", rowSort))
+			return TupV{}, nil
+		}
 		if c == nil {
 			unsupported("sort.Slice: the less function %s has no contract", fullKey(body))
 		}
